@@ -33,7 +33,16 @@ impl Subject for SList {
                 // insert at any index, including beyond the length (clamped by the library); biased to a few
                 // "hot" gaps so that several actors keep inserting concurrently into the same gap (nested siblings)
                 let i = match idx(e.b, 10) {
-                    0..=3 => 1.min(len),
+                    // "duel": right after the most recently inserted element this replica knows (tags grow with
+                    // time), so concurrent editors keep nesting their inserts inside the newest gap (deep paths)
+                    0..=2 => {
+                        let seq = list_seq(s);
+                        match seq.iter().enumerate().max_by_key(|(_, t)| **t) {
+                            Some((p, _)) => p + (e.c as usize & 1),
+                            None => 0,
+                        }
+                    }
+                    3 => 1.min(len),
                     4 => 0,
                     5 => (len / 2).max(1).min(len),
                     6 => len,
@@ -228,4 +237,9 @@ impl Subject for SGList {
         o.insert("api".into(), json!([]));
         Some(o)
     }
+}
+
+/// deepest identifier path held by a List state (read from the serde form)
+pub fn max_depth(s: &LSt) -> usize {
+    s.iter_entries().map(|(id, _)| crate::tree::to_tree(id).as_array().map(|a| a.len()).unwrap_or(0)).max().unwrap_or(0)
 }
